@@ -189,6 +189,15 @@ fn exec_op(run: &mut Run, op: &Value) -> Value {
                 .unwrap_or_default();
             let mut ev = json!({"ev":"announce","c":[c.0,c.1],"fam":fam,"h":h,"pid":pid,"event":event,
                                 "left":left,"offers":offers,"answer":answer,"now":now});
+            ev["gated"] = json!(get_bool_or(op, "gated", false));
+            if get_bool_or(op, "gated", false)
+                && !run
+                    .access_list
+                    .load()
+                    .allows(run.config.access_list.mode, &ids::info_hash(h))
+            {
+                return finish(run, json!({"ev":"announce_rejected","c":[c.0,c.1],"fam":fam,"t":[fam,h],"pid":pid}));
+            }
             // socket side: one peer id per torrent and connection
             let entry = run.announced.entry(c).or_default();
             if let Some(prev) = entry.get(&h) {
